@@ -47,6 +47,13 @@ theorem C12_options_last_wins (pre post : List ROpt) (o : ROpt) (h : ∀ p ∈ p
   | factory t f => simp only []; rw [hk.2.1 rfl]; rfl
   | onChange t => simp only []; rw [hk.2.2 rfl]; rfl
 
+/-- CLOSED FORM of `NewRouter(opts...)` for every option list: each field is what the last option of its
+kind assigns (scanning the list from its end), nil when there is none. -/
+theorem C12_options_closed_form (opts : List ROpt) :
+    newRouter opts = ⟨(lastFallback opts).join, (lastFactory opts).join, lastOnChange opts⟩ := by
+  have := closed_form_rev opts.reverse
+  simpa using this
+
 /-- No option of a kind: the field stays nil. -/
 theorem C12_options_unset (opts : List ROpt) (k : OKind) (h : ∀ o ∈ opts, o.kind ≠ k) :
     (k = .fallback → (newRouter opts).fallback = none) ∧
@@ -91,6 +98,31 @@ theorem C12_options_fallback_before_factory (opts p1 q1 p2 q2 : List ROpt) (tb t
       by_cases e2 : (f n s.nfac).err
       · simp [e1, e2]
       · cases hc : (f n s.nfac).child <;> simp [e1, e2, hc, hn, Reg.set_abs]
+
+/-- The property's clause for a router configured by any option list: a unary request for an unregistered
+name is forwarded exactly once — to the client the last-configured FALLBACK supplies if it supplies one, else
+to the client the last-configured FACTORY makes, else to nobody with NotFound — wherever the two options
+stand in the list; the child's answer is returned unaltered. -/
+theorem C12_options_request_forwarded (opts p1 q1 p2 q2 : List ROpt) (tb tf : Nat) (g f : Factory)
+    (h1 : opts = p1 ++ .fallback tb (some g) :: q1) (hq1 : ∀ p ∈ q1, p.kind ≠ .fallback)
+    (h2 : opts = p2 ++ .factory tf (some f) :: q2) (hq2 : ∀ p ∈ q2, p.kind ≠ .factory)
+    (s : St) (n : Name) (hn : s.reg.get n = none) (method req : Tok) (child : Client → Tok → Tok → UOut) :
+    forwardUnary (get (newRouter opts).cfg s n).2 method req child =
+      match supplies (some g) n s.nfb with
+      | some c => ([⟨c, method, req⟩], child c method req)
+      | none =>
+        match supplies (some f) n s.nfac with
+        | some c => ([⟨c, method, req⟩], child c method req)
+        | none => ([], .err notFoundTok) := by
+  have h := C12_options_fallback_before_factory opts p1 q1 p2 q2 tb tf g f h1 hq1 h2 hq2 s n hn
+  simp only at h
+  cases hg : supplies (some g) n s.nfb with
+  | some c => rw [hg] at h; simp only at h; rw [h]; rfl
+  | none =>
+    rw [hg] at h; simp only at h
+    cases hf : supplies (some f) n s.nfac with
+    | some c => rw [hf] at h; simp only at h; rw [h.1]; rfl
+    | none => rw [hf] at h; simp only at h; rw [h.1]; rfl
 
 /-- Whole histories: option lists that agree kind by kind give the same results, the same final registry,
 the same calls to every function passed and tell every listener the same changes — for every history. -/
